@@ -47,6 +47,7 @@ def le_guard(key, bound, name):
 
 def run(prog, chk):
     buffer_tables(prog, chk)
+    remap_table(prog, chk)
     _run(prog, chk)
 
 
@@ -291,3 +292,71 @@ def buffer_tables(prog, chk):
                               on_unknown="stop", prog=prog, loop_bound=6)
                 inst = "KSI_TlvElement_serialize[len=%d,tag=%#x,opt=%d,buffer=%s]" % (L, tag, opt, "none" if B is None else B)
                 judge(inst, fe, I, I.run(), B or 0, need, hdr, L, expect_refusal_allowed=True, moved=("block" if opt == 0 else None), has_buf=B is not None, outkey=("*" + en[3],))
+
+
+def remap_table(prog, chk):
+    """remap() (used by KSI_TlvElement_detach): after re-serialization every node points at its own element in the new buffer, whatever
+    header size it had before."""
+    from ksirules.bufinterp import BufInterp, Off
+    from ksirules.interp import TOP, Ptr, inline_model, list_overrides, succeed_model
+    chk.rule("C09.remap", "detach: each child is re-pointed to its own element of the new encoding (header sizes re-read, not remembered)", floor=6)
+    fn = prog.fn("remap", "tlv_element.c")
+    ep, bp, lp = [p["n"] for p in fn.params]
+    for (n0, old0, n1, old1) in ((1, 2, 2, 2), (1, 4, 2, 2), (300, 2, 2, 2), (300, 4, 2, 4), (0, 2, 0, 2), (255, 4, 256, 2)):
+        enc0 = ref_header(1, n0, 0, 0) + [None] * n0
+        enc1 = ref_header(2, n1, 0, 0) + [None] * n1
+        inner = enc0 + enc1
+        new = ref_header(5, len(inner), 0, 0) + inner
+        hp = len(new) - len(inner)
+        lists = {"SUB": [Ptr("C0"), Ptr("C1")]}
+        length, element_at = list_overrides(lists)
+        inputs = {ep: Ptr("E"), bp: Ptr("NEW"), lp: len(new), "E->subList": Ptr("SUB"), "E->ftlv.tag": 5, "E->ptr": Ptr("OLD"), "E->ptr_own": 0,
+                  "E->ftlv.hdr_len": 2, "E->ftlv.dat_len": 7}
+        for k, (n, old, tag) in enumerate(((n0, old0, 1), (n1, old1, 2))):
+            inputs.update({"C%d->subList" % k: 0, "C%d->ftlv.tag" % k: tag, "C%d->ftlv.hdr_len" % k: old, "C%d->ftlv.dat_len" % k: n,
+                           "C%d->ptr" % k: Ptr("OLD%d" % k), "C%d->ptr_own" % k: 0})
+        for k, v in enumerate(new):
+            if v is not None:
+                inputs["NEW[%d]" % k] = v
+
+        def memread(I, p, node, args, new=new):
+            o = I.as_off(args[0])
+            if o is None or o.base != "NEW" or not isinstance(args[1], int):
+                return TOP
+            b = new[o.off:o.off + 4]
+            if len(b) < 2 or b[0] is None:
+                return 0x101
+            if b[0] & 0x80:
+                tag, hl, dl = ((b[0] & 0x1f) << 8) | b[1], 4, (b[2] << 8) | b[3]
+            else:
+                tag, hl, dl = b[0] & 0x1f, 2, b[1]
+            out = strip(node["a"][2])
+            key = I.canon(p, I.key_of(p, out["e"]))
+            for f, v in (("tag", tag), ("hdr_len", hl), ("dat_len", dl), ("is_nc", (b[0] >> 6) & 1), ("is_fwd", (b[0] >> 5) & 1), ("off", 0)):
+                I.write(p, "%s.%s" % (key, f), v)
+            return 0 if args[1] >= hl + dl else 0x101
+        ov = {"KSI_FTLV_memRead": memread, "KSI_TlvElementList_length": length, "KSI_TlvElementList_elementAt": element_at,
+              "memset": lambda I, p, n, a: a[0], "memmove": lambda I, p, n, a: a[0], "KSI_free": lambda I, p, n, a: TOP}
+        I = BufInterp(fn, {"NEW": len(new)}, inputs=inputs, call_model=inline_model(prog, {"remap"}, fallback=succeed_model(prog, ov)),
+                      on_unknown="stop", prog=prog, loop_bound=6)
+        paths = I.run()
+        chk.paths += len(paths)
+        inst = "remap[child payloads %d/%d, header sizes before %d/%d]" % (n0, n1, old0, old1)
+        if len(paths) != 1 or paths[0].undetermined:
+            raise AnalysisBroken("remap: evaluation not determined for %s: %s" % (inst, [q.undetermined[:1] for q in paths]))
+        q = paths[0]
+
+        def last(key):
+            st = q.stores(key)
+            return st[-1][2] if st else None
+        got = {"E": last("E->ptr"), "C0": last("C0->ptr"), "C1": last("C1->ptr"), "h0": last("C0->ftlv.hdr_len"), "h1": last("C1->ftlv.hdr_len"),
+               "d0": last("C0->ftlv.dat_len"), "d1": last("C1->ftlv.dat_len")}
+        want = {"E": Ptr("NEW"), "C0": Off("NEW", hp), "C1": Off("NEW", hp + len(enc0)), "h0": len(enc0) - n0, "h1": len(enc1) - n1, "d0": n0, "d1": n1}
+
+        def same(a, b):
+            if isinstance(b, Off):
+                o = I.as_off(a)
+                return o is not None and (o.base, o.off) == (b.base, b.off)
+            return a == b
+        ok = q.ret == 0 and all(same(got[k], want[k]) for k in want)
+        chk.ob("C09.remap", inst, ok, "expected %s; source: status %s, %s" % (want, q.ret, got), loc=fn.loc(), fn=fn)
